@@ -487,3 +487,55 @@ class AbsEval:
     # ---------------------------------------------------------------- driver
     def run(self, init: State, kinds=("n", "e", "s")) -> Dict[int, Set[State]]:
         return run_forward(self.cfg, init, self.transfer, self.edge_transfer, kinds=kinds)
+
+
+    def explore(self, starts, goal, blocked=None, kinds=("n", "e", "s"), edge_ok=None, max_states=50000):
+        """
+        Abstract-state-aware path query: breadth-first search over (node, state) pairs from `starts`
+        [(node id, State)], following the transfer functions, never entering a `blocked(node)` node.
+        Returns the list of edges of a shortest path to a node satisfying goal(node), or None.
+        Correlated branch tests (`if q is not None` tested twice) are therefore followed consistently.
+        """
+        from collections import deque
+        prev = {}
+        dq = deque()
+        for nid, st in starts:
+            key = (nid, st)
+            if key not in prev:
+                prev[key] = None
+                dq.append(key)
+        first = set(prev)
+        while dq:
+            key = dq.popleft()
+            nid, st = key
+            node = self.cfg.nodes[nid]
+            if key not in first and goal(node):
+                path = []
+                k = key
+                while prev[k] is not None:
+                    pk, e = prev[k]
+                    path.append(e)
+                    k = pk
+                return list(reversed(path))
+            if key in first and goal(node) and not self.cfg.succ[nid]:
+                return []
+            out = self.transfer(node, st)
+            for e in self.cfg.succ[nid]:
+                if e.kind not in kinds:
+                    continue
+                if edge_ok is not None and not edge_ok(e, node):
+                    continue
+                s2 = self.edge_transfer(e, node, st, out)
+                if s2 is None:
+                    continue
+                dst = self.cfg.nodes[e.dst]
+                if blocked is not None and blocked(dst) and not goal(dst):
+                    continue
+                k2 = (e.dst, s2)
+                if k2 in prev:
+                    continue
+                if len(prev) > max_states:
+                    raise AnalysisError(f"{self.fn.qualname}: abstract state space exceeded {max_states}")
+                prev[k2] = (key, e)
+                dq.append(k2)
+        return None
